@@ -304,6 +304,18 @@ func genC10(tier, out string, sum *Summary) {
 			relate("a "+o1.text+" 'xy'[0:1]", "a "+o1.text+" ('xy'[0:1])", nil)
 		}
 	}
+	// long chains: the implied parentheses of a left-associative chain nest as deep as the chain is long, and
+	// writing them (or any number of redundant ones) changes nothing
+	for _, n := range []int{3, 130, 200, 400} {
+		for _, o := range []string{"-", "||", "+", "&&", "|", "//", "=="} {
+			flat := "a" + strings.Repeat(" "+o+" b", n)
+			paren := strings.Repeat("(", n) + "a" + strings.Repeat(" "+o+" b)", n)
+			sum.count("long-chains")
+			relate(flat, paren, nil)
+		}
+		relate("a - b", strings.Repeat("(", n)+"a"+strings.Repeat(")", n)+" - "+strings.Repeat("(", n)+"b"+strings.Repeat(")", n), nil)
+		relate("a - b * c", "a - "+strings.Repeat("(", n)+"b * c"+strings.Repeat(")", n), nil)
+	}
 	// selectors and projections bind tighter than every binary operator
 	for _, o := range binSpellings {
 		if o.text != o.ascii {
